@@ -61,16 +61,16 @@ def ref_presence(u: Universe, m: Msg, ref) -> Dict[str, bool]:
     rep: Dict[str, bool] = {}
     for f in m.fields:
         if f.card == "oneof":
-            rep[f.name] = ref.WhichOneof(f.group) == f.name
+            rep[f.name] = ref.WhichOneof(f.group) == f.pname
         elif f.card in ("repeated", "map"):
-            rep[f.name] = len(getattr(ref, f.name)) > 0
+            rep[f.name] = len(getattr(ref, f.pname)) > 0
         elif f.card == "optional" or f.base in ("wrap", "msg"):
-            rep[f.name] = ref.HasField(f.name)
+            rep[f.name] = ref.HasField(f.pname)
         elif f.base in ("timestamp", "duration"):
-            x = getattr(ref, f.name)
-            rep[f.name] = ref.HasField(f.name) and (x.seconds != 0 or x.nanos != 0)
+            x = getattr(ref, f.pname)
+            rep[f.name] = ref.HasField(f.pname) and (x.seconds != 0 or x.nanos != 0)
         else:
-            v = getattr(ref, f.name)
+            v = getattr(ref, f.pname)
             rep[f.name] = not (v == default_of(u, f)) or (isinstance(v, float) and v != v)
     return rep
 
